@@ -605,6 +605,12 @@ def make_client(spec, captured, is_async):
         if kind == "touch":
             # the underlying httpx client already exists when the derived client is made
             (c.get_async_httpx_client if is_async else c.get_httpx_client)()
+        elif kind == "set_client":
+            # the caller's own httpx client (documented to replace whatever the generated client would have built)
+            if is_async:
+                c = c.set_async_httpx_client(httpx.AsyncClient(base_url=kw["base_url"], headers=arg, transport=httpx.MockTransport(ahandler)))
+            else:
+                c = c.set_httpx_client(httpx.Client(base_url=kw["base_url"], headers=arg, transport=httpx.MockTransport(handler)))
         elif kind == "with_timeout":
             c = c.with_timeout(httpx.Timeout(arg))
         else:
